@@ -193,7 +193,7 @@ pub fn cases(tier: &str, seed: u64, focus: &str) -> Vec<EncCase> {
     }
 
     // (2) boundary strings: body of one class of every length, plus a tail
-    let max_body = if thorough { 120 } else { 48 };
+    let max_body = if focus == "C10" { 36 } else if thorough { 120 } else { 48 };
     for class in CLASSES {
         for n in 0..=max_body {
             let ntails = if thorough { TAILS.len() } else { 3 };
@@ -223,7 +223,7 @@ pub fn cases(tier: &str, seed: u64, focus: &str) -> Vec<EncCase> {
     // (3) random strings, lengths log-uniform up to beyond the maximum
     let nrand = if thorough { 6000 } else { 900 };
     for _ in 0..nrand {
-        let maxlen = if rng.chance(1, 10) { 3300 } else { 400 };
+        let maxlen = if focus == "C10" { 40 } else if rng.chance(1, 10) { 3300 } else { 400 };
         let n = rng.log_range(0, maxlen);
         let s = if rng.chance(1, 4) {
             let c = *rng.pick(&CLASSES);
@@ -234,7 +234,7 @@ pub fn cases(tier: &str, seed: u64, focus: &str) -> Vec<EncCase> {
         push_cfgs(&mut out, &mut rng, &g, "random", &s, 1, focus);
     }
     // long inputs near the largest capacities (few, they are expensive to judge)
-    let nlong = if thorough { 60 } else { 8 };
+    let nlong = if focus == "C10" { 0 } else if thorough { 60 } else { 8 };
     for _ in 0..nlong {
         let c = *rng.pick(&[Class::Digits, Class::Upper, Class::Lower, Class::Any, Class::EdifactPunct, Class::X12]);
         let n = match c {
@@ -254,7 +254,7 @@ pub fn cases(tier: &str, seed: u64, focus: &str) -> Vec<EncCase> {
     }
     let nb = if thorough { 400 } else { 60 };
     for _ in 0..nb {
-        let n = rng.log_range(1, 120);
+        let n = rng.log_range(1, if focus == "C10" { 30 } else { 120 });
         let mut b = random_runs(&mut rng, n);
         if rng.chance(1, 2) {
             b.extend_from_slice(*rng.pick(&TAILS[..]));
